@@ -567,7 +567,7 @@ impl<'a> Tape<'a> {
 
 // ------------------------------------------------------------------ literals
 
-pub const STR_ATOMS_BMP: &[&str] = &["a", "b", "c", "ab", "A", "1", "2", "10", " ", ",", "-", "x y", "\u{e9}", "\u{65e5}\u{672c}", "\"", "\\", "\n", "\t", "/", "\u{7f}", "\u{1}", "\u{ffff}", "\u{5d0}"];
+pub const STR_ATOMS_BMP: &[&str] = &["a", "b", "c", "ab", "A", "1", "2", "10", " ", ",", "-", "a ", "\u{e9}", "\u{65e5}\u{672c}", "\"", "\\", "\n", "\t", "/", "\u{7f}", "\u{1}", "\u{ffff}", "\u{5d0}"];
 pub const STR_ATOMS_ASTRAL: &[&str] = &["\u{1f603}", "\u{10000}", "\u{10ffff}"];
 pub const NUM_LITS: &[&str] = &[
     "0", "1", "2", "3", "-1", "10", "5", "7", "-7", "4", "100", "0.5", "1.5", "-0.5", "2.25", "0.25", "-2.5", "3.75", "1000", "0.1", "0.2", "3.14", "1e3", "2.5e-1", "1E2", "12.0", "-0.0", "1e10", "9007199254740991", "-9007199254740991",
@@ -578,7 +578,7 @@ pub const NAS_LITS: &[&str] = &[
     "\"123456789012345678901234567890\"", "\"0.000000000000000000000000000001\"", "\"1e100\"", "\"-1e-100\"", "\"99999999999999999999.99999999999999999999\"", "\"1e999\"", "\"00000.5\"", "\"abc\"", "\"\"", "\"1 \"", "\"0x10\"", "\"1e\"",
 ];
 pub const REGEX_LITS: &[&str] = &[
-    "\"a\"", "\"a+\"", "\"[a-c]+\"", "\"(a|b)c\"", "\"^a\"", "\"b$\"", "\"([0-9]+)-([a-z]+)\"", "\".\"", "\"\"", "\"a*\"", "\"\\\\d+\"", "\"(?i)A\"", "\"(a)(b)?\"", "\"[0-9\"", "\"(\"", "\"\u{e9}+\"", "\"(x)|(y)\"", "\"^$\"", "\"\\\\s\"", "\"[^a]\"", "\"*\"", "\"a{2}\"",
+    "\"a \"", "\" a\"", "\"A\"", "\"ba\"", "\"a\"", "\"a+\"", "\"[a-c]+\"", "\"(a|b)c\"", "\"^a\"", "\"b$\"", "\"([0-9]+)-([a-z]+)\"", "\".\"", "\"\"", "\"a*\"", "\"\\\\d+\"", "\"(?i)A\"", "\"(a)(b)?\"", "\"[0-9\"", "\"(\"", "\"\u{e9}+\"", "\"(x)|(y)\"", "\"^$\"", "\"\\\\s\"", "\"[^a]\"", "\"*\"", "\"a{2}\"",
 ];
 pub const TIMEFMT_LITS: &[&str] = &["\"%Y-%m-%d\"", "\"%H:%M:%S\"", "\"%s\"", "\"%Y\"", "\"%%\"", "\"%Y-%m-%dT%H:%M:%S\"", "\"%d/%m/%y\"", "\"%Q\"", "\"%\"", "\"\"", "\"%j\"", "\"%a %b %e\"", "\"%Y-%m-%d %H:%M:%S %z\"", "\"%T\"", "\"%v\"", "\"%.3f\"", "\"x\"", "\"%e%\"", "\"%-d\"", "\"%5Y\"", "\"%:z\"", "\"%+\""];
 pub const TIMESTR_LITS: &[&str] = &["\"2023-12-03\"", "\"13:51:55\"", "\"1701611515\"", "\"2023\"", "\"2023-12-03T13:51:55\"", "\"03/12/23\"", "\"2023-12-03 13:51:55 +0500\"", "\"\"", "\"x\"", "\"1970-01-01T00:00:00\"", "\"2024-02-29\"", "\"2023-02-29\"", "\"9999-12-31\"", "\"%\""];
@@ -869,7 +869,15 @@ impl<'a> Gen<'a> {
             return if i < env.vars.len() {
                 Expr::Var(env.vars[i].0.clone())
             } else if i < env.vars.len() + env.macros.len() {
-                Expr::Mac(env.macros[i - env.vars.len()].0.clone())
+                let m = Expr::Mac(env.macros[i - env.vars.len()].0.clone());
+                // now and then the macro is used under a rebinding of a variable it may read
+                if !env.vars.is_empty() && self.tape.chance(1, 3) {
+                    let (vn, vk) = env.vars[self.tape.below(env.vars.len())].clone();
+                    let l = self.lit(vk, 1);
+                    Expr::call("set", vec![Expr::Lit(json_str(&vn)), Expr::Lit(l), m])
+                } else {
+                    m
+                }
             } else {
                 Expr::Sel(env.sels[i - env.vars.len() - env.macros.len()].0.clone())
             };
